@@ -111,6 +111,14 @@ def clauses_text(contract):
     return '\n'.join(out)
 
 
+def clause_tags(contract, kw):
+    """tags of the requires/ensures clauses of a tagged contract, in order (CBMC numbers
+    <fn>.precondition.k / <fn>.postcondition.k by clause order)"""
+    if isinstance(contract, str):
+        return []
+    return [tag for tag, cl in contract if cl.strip().startswith('__CPROVER_' + kw)]
+
+
 def subst(text, names, ret='__CPROVER_return_value', root=None):
     """$this $0..$n $ret $ROOT placeholders"""
     def rep(m):
@@ -205,6 +213,9 @@ class Unit:
                 self.emit_inst(it, inst_fns[it.name], facts)
             except ExtractError as e:
                 self.errors[it.name] = 'extraction: %s' % e
+            except Exception as e:   # emitter bug: fail closed for this instance only
+                import traceback
+                self.errors[it.name] = 'extraction (emitter exception %r): %s' % (e, ' | '.join(traceback.format_exc().strip().splitlines()[-6:]))
         self.write_facts(facts)
         self.tu.text = None
         return self
@@ -264,7 +275,9 @@ class Unit:
         protos = []
         leaf_names = []
         sites = {}
+        leaf_req = {}
         for fid, (fn, key) in em.leaves.items():
+            leaf_req[em.fname(fn)] = clause_tags(leaf_text[key], 'requires')
             sig = em.signature(fn)
             text = clauses_text(leaf_text[key])
             names = em.sig_info[fn['id']]['params']
@@ -301,6 +314,7 @@ class Unit:
             'inlined': [tu.funcs[fid].get('name') for fid in order if fid != root['id']],
             'lowerings': dict(em.lowerings), 'has_loops': bool(getattr(em, 'loop_ordinal', {})),
             'n_functions': len(order), 'sites': sites,
+            'ensures_tags': clause_tags(it.contract, 'ensures'), 'leaf_requires_tags': leaf_req,
         }
 
     def loops(self, em, it, fn, text):
